@@ -1,7 +1,7 @@
 /* Ghost byte source (DESIGN 3.3 R5): a contiguous symbolic buffer; read(p,n)
  * delivers min(n, remaining) bytes in order and advances.  For bytes_source
  * this contract is proved in unit src; for stream/iterator sources it is assumed.
- * Loop-free for n <= 8 (all head reads); larger n are asserted away. */
+ * Loop-free for n <= 16 (all head reads); larger n are asserted away. */
 #ifndef VX_MODEL_SOURCE_H
 #define VX_MODEL_SOURCE_H
 #include "vx_common.h"
@@ -14,7 +14,7 @@ static size_t vx_src_pos;    /* bytes consumed */
 
 static size_t vx_source_read(uint8_t* p, size_t n)
 {
-    VX_ASSERT(n <= 8, "model: source read of more than 8 bytes needs the chunked model");
+    VX_ASSERT(n <= 16, "model: source read of more than 16 bytes needs the chunked model");
     size_t avail = vx_src_n - vx_src_pos;
     size_t k = n < avail ? n : avail;
     if (k > 0) p[0] = vx_src[vx_src_pos + 0];
@@ -25,6 +25,14 @@ static size_t vx_source_read(uint8_t* p, size_t n)
     if (k > 5) p[5] = vx_src[vx_src_pos + 5];
     if (k > 6) p[6] = vx_src[vx_src_pos + 6];
     if (k > 7) p[7] = vx_src[vx_src_pos + 7];
+    if (k > 8) p[8] = vx_src[vx_src_pos + 8];
+    if (k > 9) p[9] = vx_src[vx_src_pos + 9];
+    if (k > 10) p[10] = vx_src[vx_src_pos + 10];
+    if (k > 11) p[11] = vx_src[vx_src_pos + 11];
+    if (k > 12) p[12] = vx_src[vx_src_pos + 12];
+    if (k > 13) p[13] = vx_src[vx_src_pos + 13];
+    if (k > 14) p[14] = vx_src[vx_src_pos + 14];
+    if (k > 15) p[15] = vx_src[vx_src_pos + 15];
     vx_src_pos += k;
     return k;
 }
